@@ -41,7 +41,8 @@ Definition modelled_extras : list (string * string) := [
 Definition modelled_kind_guard : list string := ["kind = getattr(exc, 'error_kind', None)"; "if isinstance(kind, str): extra['error_kind'] = kind"; "return cls(Level.EXCEPTION, summary, **extra)"].
 (* M_WireErr.add_to_metadata: level, message, log_extra when extras are non-empty, error_kind hoisted when it is a str *)
 Definition modelled_hoist : list string := ["result = dict(metadata) if metadata else {}"; "level_key: str = LOG_LEVEL_KEY.decode()"; "message_key: str = LOG_MESSAGE_KEY.decode()"; "result[level_key] = self.level.value"; "result[message_key] = self.message"; "if self.extra: ; extra_key: str = LOG_EXTRA_KEY.decode() ; result[extra_key] = json.dumps(self.extra) ; kind = self.extra.get('error_kind') ; if isinstance(kind, str): ; result[ERROR_KIND_KEY.decode()] = kind"; "return result"].
-(* M_WireErr.dispatch_gen true (EXCEPTION arm): every RpcError argument and where it comes from *)
+(* M_WireErr.dispatch_gen true (EXCEPTION arm): every RpcError argument and, transitively, every local and metadata key
+   it is computed from (json.loads result used only when it is an object: loads = None otherwise) *)
 Definition modelled_client_raise : list (string * string) := [
   ("arg0", "error_type := str(raw_extra_data.get('exception_type', level_str))");
   ("arg1", "message_str := message_bytes.decode()");
@@ -49,8 +50,12 @@ Definition modelled_client_raise : list (string * string) := [
   ("request_id", "request_id := '' | request_id_bytes.decode()");
   ("error_kind", "error_kind := kind_bytes.decode() if kind_bytes is not None else None");
   ("level_str", "level_bytes.decode()");
-  ("message_str", "message_bytes.decode()");
-  ("raw_extra_data", "{} | json.loads(raw_extra.decode())");
+  ("raw_extra_data", "{} | parsed_extra");
+  ("message_bytes", "custom_metadata.get(LOG_MESSAGE_KEY)");
+  ("request_id_bytes", "custom_metadata.get(REQUEST_ID_KEY)");
+  ("kind_bytes", "custom_metadata.get(ERROR_KIND_KEY)");
+  ("level_bytes", "custom_metadata.get(LOG_LEVEL_KEY)");
+  ("parsed_extra", "json.loads(raw_extra.decode())");
   ("raw_extra", "custom_metadata.get(LOG_EXTRA_KEY)")
 ].
 (* M_WireErr.rpc_error / rpc_error_str *)
